@@ -149,6 +149,15 @@ def build_pair(case):
             enc_members = members + [{"name": extra, "data": b"secret bytes", "encrypted": True}]
             rng.shuffle(enc_members)
             return "zip", ".zip", plain, archives.build("zip-deflated", enc_members), True
+        if mech == "zip-flag" and variant == "plain-unsupported-compression-method":
+            # a member stored with a method zipfile cannot decode (9 = Deflate64): unreadable, but not encrypted -> must not be
+            # *rejected as encrypted*; whether and how it fails otherwise is not this property's business (expect_encrypted None)
+            import struct
+            raw = bytearray(plain)
+            i, j = raw.find(b"PK\x03\x04"), raw.find(b"PK\x01\x02")
+            raw[i + 8:i + 10] = struct.pack("<H", 9)
+            raw[j + 10:j + 12] = struct.pack("<H", 9)
+            return "zip", ".zip", plain, bytes(raw), None
         if mech == "zip-flag":
             idx = {"first": 0, "last": len(members) - 1, "only": 0}[variant]
             if variant == "only":
@@ -292,7 +301,7 @@ def gen_cases(run):
             yield mk(mech="ole-flag", fmt="xls", variant=variant, seed=base + r)
         for variant in ("encrypted-summary", "encrypted-summary-information", "encryption-info"):
             yield mk(mech="ole-flag", fmt="ppt", variant=variant, seed=base + r)
-        for variant in ("first", "last", "only", "hidden-member", "unsupported-member", "nested-archive-member"):
+        for variant in ("first", "last", "only", "hidden-member", "unsupported-member", "nested-archive-member", "plain-unsupported-compression-method"):
             yield mk(mech="zip-flag", fmt="zip", variant=variant, seed=base + r)
         for variant in ("main-folder", "one-of-several-folders", "encrypted-header"):
             yield mk(mech="7z-aes", fmt="7z", variant=variant, seed=base + r)
@@ -377,7 +386,14 @@ def main(run):
                         v("plain-twin-not-extracted", f"plain twin via {entry}: {pv['exc']['name']}: {pv['exc']['msg']}")
                 elif pv.get("cli_exit") != 0:
                     v("plain-twin-cli-failed", f"plain twin: CLI exit {pv.get('cli_exit')}: {pv.get('cli_stderr')}")
-            if exp_enc:
+            if exp_enc is None:
+                # unreadable for another reason: the only demand is "not rejected as encrypted"
+                exc = vv.get("exc") if entry != "cli" else None
+                if exc is not None and exc["name"] == "ExtractionFileEncryptedError":
+                    v("unencrypted-input-rejected-as-encrypted", f"via {entry}: {exc['msg']}")
+                if entry == "cli" and "ncrypted" in (vv.get("cli_stderr") or "") and vv.get("cli_exit") != 0:
+                    v("unencrypted-lookalike-cli-rejected", f"CLI exit {vv.get('cli_exit')}: {vv.get('cli_stderr')}")
+            elif exp_enc:
                 if entry == "cli":
                     if vv.get("cli_exit") != 1 or vv.get("cli_stdout_len"):
                         v("protected-input-cli-not-rejected", f"CLI exit {vv.get('cli_exit')} with {vv.get('cli_stdout_len')} chars on stdout for a protected input")
